@@ -186,6 +186,17 @@ func (v *VerifElection) Turn(cancelled bool) {
 	}
 }
 
+// TurnCtx takes one turn with a context supplied by the harness (which may
+// pause the turn before one of its DB operations, or abandon one of them).
+func (v *VerifElection) TurnCtx(ctx context.Context) {
+	v.tick++
+	if v.em.isLeader() {
+		v.em.leaderMain(ctx, v.tick)
+	} else {
+		v.em.followerMain(ctx, v.tick)
+	}
+}
+
 // Skip advances the local turn counter without taking a turn (a paused server
 // whose ticker keeps counting is modelled by the harness not calling Skip).
 func (v *VerifElection) View() (leader bool, hasCur bool, inst, tick, static uint64) {
